@@ -526,6 +526,8 @@ package evaluator
 //@   ensures result1 == nil ==> result0 != nil
 //@   modifies nothing
 //@ func strAtFunc
+//@   goal index-counts-characters: len(args) >= 1 && istype(args[0], *object.Int) && (intOf(args[0]) >= lib("utf8.RuneCountInString", as(receiver, *object.Str).Value) || intOf(args[0]) < 0 - lib("utf8.RuneCountInString", as(receiver, *object.Str).Value))
+//@        ==> result1 == nil && istype(result0, *object.Nil)
 //@   ints wrap64
 //@   requires receiver != nil && istype(receiver, *object.Str)
 //@   ensures result1 == nil ==> result0 != nil
